@@ -24,7 +24,7 @@ def main():
     c.correspond("dkgstep")
     c.correspond("orch")
     return c.finish(
-        rule="faults: built-in backends wired directly (n=3,t=2; BLS quick, BLS+PS thorough): for every party P and every k=0..(messages P sends in a complete run) everything P sends after its k-th message is dropped, and every single message "
+        rule="back-pressure: the real synchroniser answers a peer's query through a Send that blocks for ever; Sign and KeyGen must still return within 3 s of the end of their context. dkgstep cancel-at-park: in every second fault-free run of each backend the context ends inside the park hook (after the waiter's test, before Cond.Wait). faults: built-in backends wired directly (n=3,t=2; BLS quick, BLS+PS thorough): for every party P and every k=0..(messages P sends in a complete run) everything P sends after its k-th message is dropped, and every single message "
              "of the run is withheld once; the others' KeyGen runs under a 120 ms deadline (even k) or an explicit cancel (odd k). Full stack (real Scheme, disc, rbc on the in-process network, loud; silent in thorough): node 2 goes silent after "
              "its k-th outgoing message for ~25 values of k. Sign with 6 kinds of unusable stored share data per scheme must fail at once. Monitors: every call returns within deadline + margin, the process survives (a panic in any goroutine kills the "
              "harness and is reported), goroutines end. orch: the exit paths of C12 (preparation error propagated). Non-trivial = every fault point.",
